@@ -20,7 +20,7 @@ Theorem C28_stale_until_rebuild : forall e ty ops,
 Proof. exact stale_until_rebuild. Qed.
 
 Definition ex_entry : entry :=
-  {| e_types := [0]; e_prop := Some 0; e_elig := None;
+  {| e_types := [0]; e_prop := Some 0; e_label := None; e_elig := None;
      e_index := match build_index 3 [(1, 0); (2, 0)] FAuto with
                 | inl i => Some (set_measure i [Some 1; Some 2; Some 3]%Z [OSum])
                 | inr _ => None
@@ -33,34 +33,56 @@ Example C28_stale_nonvacuous :
   usable (m_step ex_entry (MMeasureWrite 0 1 (Some 5%Z))) = true.
 Proof. vm_compute. repeat split; reflexivity. Qed.
 
-(* Every history of edge writes, property writes, property removals and rebuilds OUTSIDE the known
-   class keeps the measure held by a usable index equal to the measure in the graph ([synced]);
-   the ghost measure g follows the graph (g_step), the entry follows the code (m_step). *)
+(* A node gaining or losing the label the measure is restricted to makes the entry unusable, and
+   it stays unusable through every further history until a rebuild. *)
+Theorem C28_label_write_stale_until_rebuild : forall e l ops,
+  e_label e = Some l ->
+  forallb (fun o => negb (is_rebuild o)) ops = true ->
+  usable (fold_left m_step ops (m_step e (MLabelWrite l))) = false.
+Proof. exact label_write_stale_until_rebuild. Qed.
+
+Example C28_label_write_nonvacuous :
+  let e := {| e_types := [0]; e_prop := Some 0; e_label := Some 7; e_elig := Some [1; 2];
+              e_index := e_index ex_entry; e_stale := false |} in
+  usable e = true /\ usable (m_step e (MLabelWrite 7)) = false /\ usable (m_step e (MLabelWrite 8)) = true /\
+  usable (m_step e (MMeasureWrite 0 0 (Some 9%Z))) = true /\
+  option_map (fun ix => rollup ix 0 OSum) (e_index (m_step e (MMeasureWrite 0 0 (Some 9%Z)))) = Some (Some (RInt 6)).
+Proof. vm_compute. repeat split; reflexivity. Qed.
+
+(* EVERY history of edge writes, property writes, property removals (REMOVE n.prop), label writes
+   and rebuilds keeps the measure held by a usable index equal to the measure in the graph
+   ([synced]); the ghost measure g follows the graph (g_step), the entry follows the code (m_step). *)
 Theorem C28_measure_synced : forall ops e g, synced e g ->
-  forallb rebuild_ok ops = true -> Known_C28 e ops = false ->
+  forallb rebuild_ok ops = true ->
   synced (fst (mg_run e g ops)) (snd (mg_run e g ops)).
 Proof. exact measure_synced. Qed.
 
-(* Known finding (GraphStore::remove_node_property does not notify the hierarchy manager): inside
-   the class the property fails — a usable index keeps the removed value. *)
-Theorem C28_refuted : exists e g ops,
-  synced e g /\ forallb rebuild_ok ops = true /\ Known_C28 e ops = true /\
-  ~ synced (fst (mg_run e g ops)) (snd (mg_run e g ops)).
-Proof.
-  exists ex_entry, [Some 1; Some 2; Some 3]%Z, [MPropRemove 0 2].
-  split; [|split; [reflexivity|split; [reflexivity|]]].
-  - intros _. eexists; split; reflexivity.
-  - intros S. destruct (S eq_refl) as [ix [E1 E2]]. vm_compute in E1. inversion E1; subst ix.
-    vm_compute in E2. discriminate.
-Qed.
-
 Example C28_measure_synced_nonvacuous :
-  let ops := [MMeasureWrite 0 2 (Some 9%Z); MPropRemove 1 2; MEdgeWrite 1; MMeasureWrite 0 0 None] in
+  let ops := [MMeasureWrite 0 2 (Some 9%Z); MPropRemove 1 2; MEdgeWrite 1; MPropRemove 0 0; MLabelWrite 3] in
   synced ex_entry [Some 1; Some 2; Some 3]%Z /\ forallb rebuild_ok ops = true /\
-  Known_C28 ex_entry ops = false /\ usable (fst (mg_run ex_entry [Some 1; Some 2; Some 3]%Z ops)) = true /\
-  snd (mg_run ex_entry [Some 1; Some 2; Some 3]%Z ops) = [None; Some 2; Some 9]%Z.
+  usable (fst (mg_run ex_entry [Some 1; Some 2; Some 3]%Z ops)) = true /\
+  snd (mg_run ex_entry [Some 1; Some 2; Some 3]%Z ops) = [None; Some 2; Some 9]%Z /\
+  option_map (fun ix => rollup ix 0 OSum) (e_index (fst (mg_run ex_entry [Some 1; Some 2; Some 3]%Z ops)))
+    = Some (Some (RInt 11)).
 Proof.
   cbv zeta. split; [intros _; eexists; split; reflexivity|]. vm_compute. repeat split; reflexivity.
+Qed.
+
+(* The behaviour before the store.rs repair (remove_node_property did not reach the manager, i.e.
+   MPropRemove was a no-op on the entry) did violate [synced]: kept as a regression witness. *)
+Definition m_step_before_fix (e : entry) (o : mop) : entry :=
+  match o with MPropRemove _ _ => e | _ => m_step e o end.
+
+Example C28_noop_remove_breaks_sync :
+  synced ex_entry [Some 1; Some 2; Some 3]%Z /\
+  ~ synced (m_step_before_fix ex_entry (MPropRemove 0 2))
+           (g_step ex_entry [Some 1; Some 2; Some 3]%Z (MPropRemove 0 2)) /\
+  synced (m_step ex_entry (MPropRemove 0 2)) (g_step ex_entry [Some 1; Some 2; Some 3]%Z (MPropRemove 0 2)).
+Proof.
+  split; [intros _; eexists; split; reflexivity|]. split.
+  - intros S. destruct (S eq_refl) as [ix [E1 E2]]. vm_compute in E1. inversion E1; subst ix.
+    vm_compute in E2. discriminate.
+  - intros _. eexists; split; reflexivity.
 Qed.
 
 (* ---- Poset::from_edges (dedup + Kahn): every accepted input is a well-formed poset ---- *)
@@ -317,7 +339,7 @@ Definition C28_full : Prop :=
 Print Assumptions C28_spec_closure.
 Print Assumptions C28_stale_until_rebuild.
 Print Assumptions C28_measure_synced.
-Print Assumptions C28_refuted.
+Print Assumptions C28_label_write_stale_until_rebuild.
 Print Assumptions C28_from_edges_wf.
 Print Assumptions C28_nested_reachable.
 Print Assumptions C28_nested_rollup.
